@@ -304,6 +304,9 @@ def c10_cfgs(tier):
     q += [cfg('c10', b, avg=2, n=n, **{**base, 'exposure': e}) for (e, n) in ((5, 4), (10, 2), (5, 2), (10, 4)) for b in (1, 'D2')] + [cfg('c10', 2, avg=2, n=2, **{**base, 'exposure': 10})]
     q += [cfg('c10', 1, avg=2, n=4, **{**base, 'exposure': 0, 'fringf': 1}),   # camera without exposure wait: the source outruns the filter thread
           cfg('c10', 0, avg=3, n=7, w=2, h=2, **base), cfg('c10', 0, avg=2, n=6, **{**base, 'prefill': 0}), cfg('c10', 0, avg=2, n=4, client=1, **base)]
+    # larger windows (4, 5, 8) around their multiples, on 2- and 3-frame rings, signed and unsigned samples
+    q += [cfg('c10', b, avg=k, n=n, type=t, **base) for k in (4, 5) for n in (k, k + 1, 2 * k, 2 * k + 1) for (b, t) in ((0, 1), ('D1', 3))]
+    q += [cfg('c10', 'D1', avg=k, n=n, w=3, h=1, type=2, **{**base, 'ringf': 3, 'fringf': 3}) for (k, n) in ((4, 9), (5, 10), (8, 17))] + [cfg('c10', 'D2', avg=4, n=8, **base)]
     # averaging switched off / on by a live re-configuration (the source asks the filter to reset its accumulator and then writes the sink ring itself)
     q += [cfg('c08', 'D2', prog=p) for p in ('FswAS', 'FswAwS', 'FsAS', 'AswFwS')]
     q += [cfg('c10', 'D1', avg=2, n=4, streams=2, n1=5, **base)]   # two averaged streams (delay bounding: preemption bound 1 on six worker threads does not finish)
